@@ -4,6 +4,7 @@ their default (factor 1, offset 0, is_big_endian/is_signed/is_float false, is_ex
 from __future__ import absolute_import
 
 import json as _json
+from decimal import Decimal as _D
 
 from lib.c15 import net as N
 from lib.c15.dbc import Lex  # noqa: F401
@@ -28,6 +29,17 @@ def num(L, value, table):
     return text
 
 
+def whole(L, text):
+    if L.level and L.rng.random() < 0.4:
+        try:
+            v = _D(text)
+        except Exception:  # noqa
+            return text
+        if v == v.to_integral_value() and abs(v) < 10 ** 15:
+            return int(v)
+    return text
+
+
 def render(net, lex, opts=None):
     L = lex
 
@@ -49,8 +61,9 @@ def render(net, lex, opts=None):
             if not drop(not s["float"]):
                 d["is_float"] = s["float"]
             if s["min"] is not None:
-                d["min"] = s["min"]
-                d["max"] = s["max"]
+                # limits as strings, or - where the number is a whole one - as native JSON integers
+                d["min"] = whole(L, s["min"])
+                d["max"] = whole(L, s["max"])
             if s["unit"]:
                 d["unit"] = s["unit"]
             if s["comment"] or not L.level:
